@@ -996,7 +996,7 @@ func buildCases(c *ctx) []rCase {
 		add(ru)
 	}
 	// --- many busy workers crossing the limit together (C03 ceiling / exact N under contention)
-	for k := 0; k < c.pick(200, 1500); k++ {
+	for k := 0; k < c.pick(600, 3000); k++ {
 		lim := int64(300 + c.rng.Intn(900))
 		ru := rCase{cfg: rCfg{Name: "limit-race-users", Mode: "users", Conc: 32, MaxIter: lim, MaxDurUs: 5000 * ms, Light: true},
 			build: func(func(api.RateFunction) api.RateFunction) (*api.Trigger, error) {
